@@ -264,7 +264,8 @@ func c02Groups(run *vfRun) []c02Group {
 	forms := c02SecretForms()
 	seed := int(run.Env.Seed)
 	names := []string{"_oauth2_proxy", "sess", "my.app-session", "_oauth2_proxy", "SID"}
-	expires := []time.Duration{168 * time.Hour, 24 * time.Hour, 3 * time.Hour}
+	// 0 = browser-session cookies: a supported configuration in which the timestamp window is not checked at all
+	expires := []time.Duration{168 * time.Hour, 24 * time.Hour, 3 * time.Hour, 0}
 	var gs []c02Group
 	if !run.Env.Thorough() {
 		// 8 issuing configurations (store x secret form x size) in 6 instance groups; the seed rotates which secret
@@ -274,8 +275,12 @@ func c02Groups(run *vfRun) []c02Group {
 			sizes []string
 		}{{"cookie", []string{"small", "2parts"}}, {"cookie", []string{"3parts"}}, {"cookie", []string{"4parts"}}, {"cookie", []string{"small"}}, {"redis", []string{"small", "3parts"}}, {"redis", []string{"small"}}}
 		for i, p := range plan {
-			gs = append(gs, c02Group{Store: p.store, Form: forms[(i*2+seed)%len(forms)], Sizes: p.sizes, CookieName: names[(i+seed)%len(names)],
-				Expire: expires[(i+seed)%len(expires)], CSRFPerReq: (i+seed)%2 == 0, ShiftWidths: []int{4}})
+			g := c02Group{Store: p.store, Form: forms[(i*2+seed)%len(forms)], Sizes: p.sizes, CookieName: names[(i+seed)%len(names)],
+				Expire: expires[(i+seed)%3], CSRFPerReq: (i+seed)%2 == 0, ShiftWidths: []int{4}}
+			if i == 3 || i == 5 { // one cookie-store and one Redis group without a lifetime (--cookie-expire=0)
+				g.Expire = 0
+			}
+			gs = append(gs, g)
 		}
 		return gs
 	}
@@ -342,6 +347,8 @@ type c02Cell struct {
 	tokMu   sync.Mutex
 	lastTok c02Tokens
 
+	histories []*c02History // versions of one store entry / one session's cookies over several saves
+
 	seenMu      sync.Mutex
 	seenCookies map[string]bool // every cookie value received from the proxy (name=value), for the opacity scan
 }
@@ -356,8 +363,8 @@ func (c *c02Cell) flagsFor(store, secret, name string) []string {
 	return f
 }
 
-func (c *c02Cell) newInst(role, store, secret, name string) *c02Inst {
-	p, err := c.w.NewProxy(c.flagsFor(store, secret, name)...)
+func (c *c02Cell) newInst(role, store, secret, name string, extra ...string) *c02Inst {
+	p, err := c.w.NewProxy(append(c.flagsFor(store, secret, name), extra...)...)
 	if err != nil {
 		c.run.T.Fatalf("C02 rig: instance %s (%s, secret form %s, name %q): %v", role, store, c.g.Form.Name, name, err)
 	}
@@ -377,7 +384,10 @@ func (c *c02Cell) detail(in *c02Inst, cks []c02CK, extra map[string]interface{})
 // login runs one real login; at != zero sets the proxy's clock around the step that stamps the credential
 // (callback for sessions) so that the credential is issued in the past.
 func (c *c02Cell) login(label string, who vfIdentity, at time.Time) *c02Cred {
-	in := c.inst["issuer"]
+	return c.loginAt(c.inst["issuer"], label, who, at)
+}
+
+func (c *c02Cell) loginAt(in *c02Inst, label string, who vfIdentity, at time.Time) *c02Cred {
 	b := vfNewBrowser("")
 	var before map[string]bool
 	if in.Store == "redis" {
@@ -586,9 +596,13 @@ func (c *c02Cell) runJobs(jobs []c02Job) {
 			out = c02Probe(c.w, j.Target, cks, j.fullRow || int64(i)%sampleFull == 0)
 		}
 		allowed := j.allowed()
-		cell := fmt.Sprintf("%s|%s|%s|%s|%s|%s", c.g.Store, c.g.Form.Name, j.Kind, j.Target.Role, j.V.Class, j.V.Bucket)
+		store := c.g.Store
+		if c.g.Expire == 0 {
+			store += "(expire=0)"
+		}
+		cell := fmt.Sprintf("%s|%s|%s|%s|%s|%s", store, c.g.Form.Name, j.Kind, j.Target.Role, j.V.Class, j.V.Bucket)
 		if j.V.Class == "forged-signature" || strings.HasPrefix(j.V.Bucket, "part") {
-			cell = fmt.Sprintf("%s|%s|%s|%s|%s", c.g.Store, c.g.Form.Name, j.Kind, j.Target.Role, j.V.Class)
+			cell = fmt.Sprintf("%s|%s|%s|%s|%s", store, c.g.Form.Name, j.Kind, j.Target.Role, j.V.Class)
 		}
 		run.Eval(cell)
 		run.Count("variants_"+j.V.Class, 1)
@@ -692,7 +706,9 @@ func (c *c02Cell) work() {
 			c.tokMu.Unlock()
 		}
 	})
+	R := c.newInst("issuer-with-refresh", g.Store, secret, g.CookieName, "--cookie-refresh=1h") // same deployment as the issuer, used for the save histories only
 	lifetime := int64(g.Expire / time.Second)
+	noExpiry := g.Expire == 0 // no credential can be "expired": the expired must-reject bases do not exist in this group
 	past := func() time.Time { return time.Now().Add(-2 * g.Expire) }
 	otherKeys := map[string]string{"secret of the sibling instance": other, "empty key": "", "cookie name as key": g.CookieName, "secret reversed": c02Reverse(secret)}
 	if b, err := base64.RawURLEncoding.DecodeString(strings.TrimRight(secret, "=")); err == nil {
@@ -733,8 +749,12 @@ func (c *c02Cell) work() {
 		userB = c02Identity(c.rng, "b", bulk)
 		A2 := c.login("A2", userA, time.Time{}) // same user, second session
 		B := c.login("B", userB, time.Time{})
-		X := c.login("X", userA, past()) // same user as A, issued two lifetimes ago
-		for _, cr := range []*c02Cred{A1, A2, B, X} {
+		var X, csrfX *c02Cred
+		if !noExpiry {
+			X = c.login("X", userA, past()) // same user as A, issued two lifetimes ago
+			c.baseline(X)
+		}
+		for _, cr := range []*c02Cred{A1, A2, B} {
 			c.baseline(cr)
 		}
 		if A1.Base == A2.Base || A1.Base.AccessToken == A2.Base.AccessToken {
@@ -742,9 +762,14 @@ func (c *c02Cell) work() {
 		}
 		csrf1 := c.startCSRF("csrf-1", userA, time.Time{})
 		csrf2 := c.startCSRF("csrf-2", userB, time.Time{})
-		csrfX := c.startCSRF("csrf-X", userA, past())
+		if !noExpiry {
+			csrfX = c.startCSRF("csrf-X", userA, past())
+		}
 		kind := A1.kindCell()
 		run.Count("issued_"+g.Store+"_"+kind, 1)
+		if noExpiry {
+			run.Count("issued_without_lifetime_"+g.Store, 1)
+		}
 		run.Count(fmt.Sprintf("issued_parts_%d", len(A1.Parts)), 1)
 		nowS := time.Now().Unix()
 
@@ -762,16 +787,22 @@ func (c *c02Cell) work() {
 		// --- altered in place, presented to the issuer
 		add(P, []*c02Cred{A1}, nil, c02PositionVariants(A1, thin, run.Env.Seed, true)...)
 		add(P, []*c02Cred{A1}, nil, c02EditVariants(A1, lifetime, nowS)...)
-		add(P, []*c02Cred{X}, nil, c02EditVariants(X, lifetime, nowS)...)
 		add(P, []*c02Cred{A1}, nil, c02ResignVariants(A1, P.Name, otherKeys)...)
 		// --- recombined
 		add(P, []*c02Cred{A1, A2}, nil, c02SpliceVariants(A1, A2, "same-user")...)
 		add(P, []*c02Cred{A1, B}, nil, c02SpliceVariants(A1, B, "two-users")...)
 		add(P, []*c02Cred{B, A1}, nil, c02SpliceVariants(B, A1, "two-users")...)
-		add(P, []*c02Cred{X, A1}, nil, c02SpliceVariants(X, A1, "expired-live")...)
-		add(P, []*c02Cred{A1, X}, nil, c02SpliceVariants(A1, X, "live-expired")...)
-		add(P, []*c02Cred{A1, A2, B, X}, nil, c02PartVariants(A1, []*c02Cred{A2, B, X})...)
-		add(P, []*c02Cred{X, A1}, nil, c02PartVariants(X, []*c02Cred{A1})...)
+		if !noExpiry {
+			add(P, []*c02Cred{X}, nil, c02EditVariants(X, lifetime, nowS)...)
+			add(P, []*c02Cred{X, A1}, nil, c02SpliceVariants(X, A1, "expired-live")...)
+			add(P, []*c02Cred{A1, X}, nil, c02SpliceVariants(A1, X, "live-expired")...)
+			add(P, []*c02Cred{A1, A2, B, X}, nil, c02PartVariants(A1, []*c02Cred{A2, B, X})...)
+			add(P, []*c02Cred{X, A1}, nil, c02PartVariants(X, []*c02Cred{A1})...)
+			add(P, []*c02Cred{X}, nil, c.forged(X, P, nowS, true, otherKeys)...)
+			add(P, []*c02Cred{X}, nil, c.unparsable(X, P)...)
+		} else {
+			add(P, []*c02Cred{A1, A2, B}, nil, c02PartVariants(A1, []*c02Cred{A2, B})...)
+		}
 		// --- moved to another name
 		add(P, []*c02Cred{A1, csrf1}, nil, c.transplants(A1, csrf1, P, N)...)
 		// --- presented to instances that never produced it: unmodified, re-signed, forged signatures
@@ -790,9 +821,7 @@ func (c *c02Cell) work() {
 				return c02Fields{f.Value, f.TS, c02Sig(S.Secret, S.Name, f.Value, f.TS), true}.String()
 			}))
 		}
-		add(P, []*c02Cred{X}, nil, c.forged(X, P, nowS, true, otherKeys)...)
 		add(P, []*c02Cred{A1}, nil, c.unparsable(A1, P)...)
-		add(P, []*c02Cred{X}, nil, c.unparsable(X, P)...)
 		add(P, []*c02Cred{csrf1}, csrf1, c.unparsable(csrf1, P)...)
 		// --- cookie names that swallow the head of the value (the MAC input has no delimiters)
 		for _, k := range g.ShiftWidths {
@@ -813,13 +842,15 @@ func (c *c02Cell) work() {
 		// --- CSRF cookies at the callback
 		add(P, []*c02Cred{csrf1}, csrf1, c02PositionVariants(csrf1, 1, run.Env.Seed, false)...)
 		add(P, []*c02Cred{csrf1}, csrf1, c02EditVariants(csrf1, lifetime, nowS)...)
-		add(P, []*c02Cred{csrfX}, csrfX, c02EditVariants(csrfX, lifetime, nowS)...)
 		add(P, []*c02Cred{csrf1}, csrf1, c02ResignVariants(csrf1, csrf1.Parts[0].Name, otherKeys)...)
 		add(P, []*c02Cred{csrf1, csrf2}, csrf1, c02SpliceVariants(csrf1, csrf2, "two-logins")...)
-		add(P, []*c02Cred{csrf1, csrfX}, csrf1, c02SpliceVariants(csrf1, csrfX, "live-expired")...)
-		add(P, []*c02Cred{csrfX, csrf1}, csrfX, c02SpliceVariants(csrfX, csrf1, "expired-live")...)
+		if !noExpiry {
+			add(P, []*c02Cred{csrfX}, csrfX, c02EditVariants(csrfX, lifetime, nowS)...)
+			add(P, []*c02Cred{csrf1, csrfX}, csrf1, c02SpliceVariants(csrf1, csrfX, "live-expired")...)
+			add(P, []*c02Cred{csrfX, csrf1}, csrfX, c02SpliceVariants(csrfX, csrf1, "expired-live")...)
+			add(P, []*c02Cred{csrfX}, csrfX, c.forged(csrfX, P, nowS, true, otherKeys)...)
+		}
 		add(P, []*c02Cred{csrf1, csrf2, A1}, csrf1, c.csrfTransplants(csrf1, csrf2, A1)...)
-		add(P, []*c02Cred{csrfX}, csrfX, c.forged(csrfX, P, nowS, true, otherKeys)...)
 		for _, t := range []*c02Inst{S, N} {
 			renamed := c.renamedCSRF(csrf1, t)
 			add(t, []*c02Cred{csrf1}, csrf1, c02Variant{Class: "foreign-instance", Bucket: "unmodified", Build: func() []c02CK { return renamed.Parts }})
@@ -829,7 +860,8 @@ func (c *c02Cell) work() {
 		if out, _ := c.presentCSRF(P, csrf1, csrf1.Parts); !out.Accepted || out.Id.Email != userA.Email {
 			run.T.Fatalf("C02 rig: unmodified CSRF cookie does not complete its login: %+v", out)
 		}
-		if out, _ := c.presentCSRF(P, csrfX, csrfX.Parts); out.Accepted {
+		if csrfX == nil {
+		} else if out, _ := c.presentCSRF(P, csrfX, csrfX.Parts); out.Accepted {
 			csrfX.Unusable = true
 			run.Count("expired_base_honoured_unmodified", 1)
 			fmt.Printf("NOTE property=C02 CSRF cookie issued two lifetimes ago still completes a login unmodified (C09's subject); its variants are not judged\n")
@@ -862,6 +894,7 @@ func (c *c02Cell) work() {
 			}
 		}
 	}
+	c.saveHistory(R, 3)
 	tOp := time.Now()
 	c.opacity()
 	if testing.Verbose() {
@@ -1043,6 +1076,62 @@ func (c *c02Cell) csrfTransplants(csrf1, csrf2, s *c02Cred) []c02Variant {
 	mk("csrf-under-generic-name", "CSRF value under <name>_csrf and <name>_<x>_csrf", c02CK{s.Owner.Name + "_csrf", csrf1.Full}, c02CK{s.Owner.Name + "_AAAAAAAA_csrf", csrf1.Full})
 	mk("no-cookie", "no cookie at all")
 	return out
+}
+
+// c02History: the successive versions of ONE session as an observer of the store / of the browser traffic sees them.
+type c02History struct {
+	Label    string
+	RedisKey string
+	Versions []string    // raw store values, in save order (Redis store)
+	Tokens   []c02Tokens // the tokens of each version (known to the harness from the IdP's books)
+	Who      vfIdentity
+	Flags    []string
+}
+
+// saveHistory makes the proxy save the SAME session several times through the same cookie / ticket, the way a
+// deployment with --cookie-refresh does: one real login, then n requests each an hour later on the proxy's clock, each
+// of which refreshes the tokens at the IdP and re-saves the session (Redis: same ticket, same store entry).
+func (c *c02Cell) saveHistory(R *c02Inst, n int) {
+	who := c02Identity(c.rng, "r", c.rng.Intn(300))
+	c.w.IdP.Set(func(cf *vfIdPCfg) { cf.IDTokenTTL = 24 * time.Hour; cf.NoRefreshRotation = true })
+	defer c.w.IdP.Set(func(cf *vfIdPCfg) { cf.IDTokenTTL = time.Hour; cf.NoRefreshRotation = false })
+	cr := c.loginAt(R, "R", who, time.Time{})
+	h := &c02History{Label: "R", RedisKey: cr.RedisKey, Tokens: []c02Tokens{cr.Tok}, Who: who, Flags: R.P.Flags}
+	if cr.RedisKey != "" {
+		h.Versions = append(h.Versions, cr.RedisVal)
+	}
+	for k := 1; k <= n; k++ {
+		clock.Set(time.Now().Add(time.Duration(k) * 61 * time.Minute))
+		r := R.P.Do(vfGET("/oauth2/auth", "Cookie", c02Header(cr.Parts)))
+		clock.Reset()
+		c.tokMu.Lock()
+		tok := c.lastTok
+		c.tokMu.Unlock()
+		if r.Code != 202 || tok.Access == h.Tokens[len(h.Tokens)-1].Access || len(r.SetCookies()) == 0 {
+			c.run.T.Fatalf("C02 rig: refresh %d of session R did not re-save the session (status %d, %d Set-Cookie, tokens changed: %v)", k, r.Code, len(r.SetCookies()), tok.Access != h.Tokens[len(h.Tokens)-1].Access)
+		}
+		h.Tokens = append(h.Tokens, tok)
+		label := fmt.Sprintf("R (version %d)", k+1)
+		c.sec.Add("access token of "+label, tok.Access)
+		c.sec.Add("refresh token of "+label, tok.Refresh)
+		c.sec.Add("ID token of "+label, tok.ID)
+		c.seenMu.Lock()
+		for _, line := range r.SetCookies() {
+			if ck, err := http.ParseSetCookie(line); err == nil && ck.Value != "" {
+				c.seenCookies[ck.Name+"="+ck.Value] = true
+			}
+		}
+		c.seenMu.Unlock()
+		if cr.RedisKey != "" {
+			v, err := c.w.Redis().Get(cr.RedisKey)
+			if err != nil || v == h.Versions[len(h.Versions)-1] {
+				c.run.T.Fatalf("C02 rig: refresh %d of session R left the store entry %q unchanged (%v)", k, cr.RedisKey, err)
+			}
+			h.Versions = append(h.Versions, v)
+		}
+		c.run.Count("sessions_resaved_through_same_cookie", 1)
+	}
+	c.histories = append(c.histories, h)
 }
 
 // opacity: every cookie value received during the logins and every raw Redis value, against every secret of the group.
